@@ -32,6 +32,8 @@ type World struct {
 	files     map[*token.File]*ast.File
 	srcCache  map[string][]byte
 	specSMT   string
+	specDefs  map[string]string
+	trustedPure map[string]bool
 	mutated   map[string]bool // globals assigned outside init
 	mutScan   bool
 	repo      string
@@ -49,7 +51,7 @@ func (w *World) constID(key string) int {
 func loadWorld(repo string, patterns []string) (*World, error) {
 	w := &World{contracts: map[string]*Contract{}, ghosts: map[string]*GhostVar{}, specFuncs: map[string]*SpecFunc{},
 		lemmas: map[string]*Lemma{}, constIDs: map[string]int{}, files: map[*token.File]*ast.File{},
-		srcCache: map[string][]byte{}, allPkgs: map[string]*packages.Package{}, repo: repo}
+		srcCache: map[string][]byte{}, allPkgs: map[string]*packages.Package{}, repo: repo, trustedPure: map[string]bool{}}
 	w.fset = token.NewFileSet()
 	cfg := &packages.Config{Mode: packages.LoadAllSyntax, Dir: repo, BuildFlags: []string{"-tags=verif"}, Fset: w.fset,
 		Env: append(os.Environ(), "GOFLAGS=-mod=mod", "GOPROXY=off", "GOSUMDB=off", "GOTOOLCHAIN=local")}
@@ -192,7 +194,28 @@ func (w *World) contractFor(fn *ssa.Function) *Contract {
 	if k == "" {
 		return nil
 	}
-	return w.contracts[k]
+	if c := w.contracts[k]; c != nil {
+		return c
+	}
+	if fn.Pkg != nil {
+		path := fn.Pkg.Pkg.Path()
+		pure := w.trustedPure[path] && fn.Signature.Recv() == nil
+		if recv := fn.Signature.Recv(); recv != nil {
+			t := recv.Type()
+			if p, ok := t.(*types.Pointer); ok {
+				t = p.Elem()
+			}
+			if n, ok := t.(*types.Named); ok && w.trustedPure[path+"."+n.Obj().Name()] {
+				pure = true
+			}
+		}
+		if pure {
+			c := &Contract{Kind: "extern", Key: k, Name: fn.Name(), PkgPath: path, Pkg: fn.Pkg.Pkg, Trusted: true, Pure: true}
+			w.contracts[k] = c
+			return c
+		}
+	}
+	return nil
 }
 
 // ifaceContract: contract of an interface method call.
@@ -205,6 +228,18 @@ func (w *World) ifaceContract(c *ssa.CallCommon) *Contract {
 }
 
 func (w *World) ifaceContractFor(t types.Type, m *types.Func) *Contract {
+	if n, ok := t.(*types.Named); ok && n.Obj().Pkg() != nil {
+		k := n.Obj().Pkg().Path() + "." + n.Obj().Name()
+		if w.trustedPure[k] {
+			ck := k + "." + m.Name()
+			if c := w.contracts[ck]; c != nil {
+				return c
+			}
+			c := &Contract{Kind: "interface", Key: ck, Name: m.Name(), PkgPath: n.Obj().Pkg().Path(), Pkg: n.Obj().Pkg(), Trusted: true, Pure: true}
+			w.contracts[ck] = c
+			return c
+		}
+	}
 	if n, ok := t.(*types.Named); ok && n.Obj().Pkg() != nil {
 		if c := w.contracts[n.Obj().Pkg().Path()+"."+n.Obj().Name()+"."+m.Name()]; c != nil {
 			return c
